@@ -79,6 +79,8 @@ class Fn:
             return
         if n.get("k") != "ref" and "id" in n:
             self.nodes.setdefault(n["id"], n)
+        if n.get("k") == "ref" and "was" in n:
+            self.nodes.setdefault(n["was"], {"k": "ref", "id": n["id"]})  # a dropped wrapper's own id, used by an earlier element
         for c in n.get("a", []) or []:
             self._index(c)
         if n.get("k") == "call":
